@@ -320,7 +320,7 @@ def run_single(binary, runner, job, scratch, timeout=60, env=None, tag="single")
 
 
 def run_workers(scratch, binary, runner, base_job, shards=None, case_timeout=30, total_timeout=1500, env=None,
-                max_crashes=200, confirm=True):
+                max_crashes=200, confirm=True, max_hangs=3):
     """Run `shards` worker processes over the job's case space with crash isolation.
 
     A worker that dies or stalls marks the case it was executing (read from its cur-file); the case is
@@ -338,6 +338,7 @@ def run_workers(scratch, binary, runner, base_job, shards=None, case_timeout=30,
     def one_shard(si):
         resume = 0
         skip = []
+        nhang = [0]
         while True:
             cur = os.path.join(scratch.path, "cur-%s-%d" % (runner, si))
             job = dict(base_job)
@@ -399,6 +400,13 @@ def run_workers(scratch, binary, runner, base_job, shards=None, case_timeout=30,
                 with lock:
                     outcome.infra.append("worker %d: more than %d crashes" % (si, max_crashes))
                 return
+            if kind == "hang":
+                nhang[0] += 1
+                if nhang[0] >= max_hangs:
+                    # every hang costs the full stall timeout: a few of them settle the verdict, the rest of the shard is not explored
+                    with lock:
+                        outcome.notes.setdefault("shards_stopped_after_hangs", []).append(si)
+                    return
             # resume from the last checkpoint (results before it are already merged), skipping the killer
             if nxt is not None:
                 resume = nxt
